@@ -2,7 +2,7 @@
 import os, sys, re, json, hashlib, subprocess, random
 from lib import terms, coqrun
 from lib.terms import g_str, g_list
-from props.cli_gen import Gen, SGen, render_clause, clause_variables
+from props.cli_gen import Gen, SGen, render_clause, clause_variables, wide_clause
 from props import c18_driver
 from lib import emitcheck as E
 
@@ -19,7 +19,10 @@ RULE = ('batch cases: every program of the batch is compiled through compile_pro
         'message) AND equal to the text that the Coq model of the compiler (Comp/CompileText.v compile_text, evaluated in Coq on '
         'the source text) gives for that program (sha256 of the model text; for a refused program the kind of refusal). '
         'decl cases: one structured clause; the whole compiled text is compared with the model text, and the order of the '
-        '`V_x = variable()` lines with the first-occurrence order computed from the clause syntax. Non-trivial: a batch that '
+        '`V_x = variable()` lines with the first-occurrence order computed from the clause syntax. SIZE CLASS: every batch has a '
+        'program, and every tenth decl case is a clause, with 64-300 variable occurrences (boundary sizes 99-102, 128, 255-257) in wide '
+        'lists / compound terms in head and body (distinct, repeated and anonymous variables); 2 batches (thorough 10) contain a program '
+        'of 8-17 kB made of hundreds of small clauses. Non-trivial: a batch that '
         'contains a program with a clause with >= 2 fresh variables, >= 1 if-then-else and >= 1 anonymous variable; a decl case '
         'with >= 2 declared variables of which one occurs more than once. Distinct by hash of the case.')
 TRUSTED_BASE = [
@@ -59,12 +62,19 @@ def _noise(rng, g):
     # valid programs that advance every counter a lot before the program under test
     return g.program(nclauses=3, rich=0.8)
 
-def gen_batch(rng, g, sg, nprog, nproc, npairs=2):
-    programs = []
+def gen_batch(rng, g, sg, nprog, nproc, npairs=2, large=None):
+    programs = [large] if large else []
     related = {}            # program index -> indices of noise texts that are look-alikes of it
     for i in range(nprog):
         k = rng.random()
-        if k < 0.4:
+        if i == 0 or k < 0.1:
+            # SIZE CLASS: clauses with 60-300 variable occurrences in wide terms (one per batch at least), alone or between
+            # ordinary clauses of the same and of other predicates
+            cl = [render_clause(wide_clause(rng)) for _ in range(rng.choice([1, 1, 2]))]
+            cl += [render_clause(sg.clause()) for _ in range(rng.choice([0, 1, 2]))]
+            rng.shuffle(cl)
+            programs.append('\n'.join(cl) + '\n')
+        elif k < 0.4:
             programs.append(g.program(nclauses=rng.choice([1, 2, 3]), rich=0.8))
         elif k < 0.6:
             programs.append('\n'.join(render_clause(sg.clause()) for _ in range(rng.choice([1, 2, 4]))) + '\n')
@@ -107,8 +117,16 @@ def gen(rng, tier):
     nbatch, nprog, nproc, ndecl = (12, 7, 8, 240) if tier == 'quick' else (100, 10, 12, 2500)
     g = Gen(rng, special=0.15)
     sg = SGen(rng)
-    batches = [gen_batch(rng, g, sg, nprog, nproc) for _ in range(nbatch)]
-    decls = [{'kind': 'decl', 'clause': sg.clause()} for _ in range(ndecl)]
+    # SIZE CLASS of texts: some batches contain a program of 8-17 kB made of hundreds of small clauses (fact table / many clauses
+    # per predicate; generator shared with C10)
+    from props import c10 as _c10
+    nlarge = 2 if tier == 'quick' else 10
+    def large(i):
+        if i >= nlarge:
+            return None
+        return _c10.g_large(rng, ['facts', 'clauses', 'facts+'][i % 3], rng.choice([8200, 8700, 10000] if tier == 'quick' else [8200, 10000, 16400, 20000]))[0]
+    batches = [gen_batch(rng, g, sg, nprog, nproc, large=large(i)) for i in range(nbatch)]
+    decls = [{'kind': 'decl', 'clause': wide_clause(rng) if i % 10 == 9 else sg.clause()} for i in range(ndecl)]
     cases = []
     step = max(1, len(decls) // max(1, len(batches)))
     di = 0
@@ -342,12 +360,14 @@ def shrink(case):
 
 def distribution(cases, obs):
     d = {'kinds': {}, 'programs': 0, 'rich_programs': 0, 'failing_programs': 0, 'process_observations': 0,
-         'hash_seeds': 0, 'option_modes': {}, 'noise_before_program': {}, 'declared_per_clause': {}}
+         'hash_seeds': 0, 'option_modes': {}, 'noise_before_program': {}, 'declared_per_clause': {},
+         'variable_occurrences_per_clause': {}, 'programs_over_8kB': 0}
     seeds = set()
     for c, o in zip(cases, obs):
         d['kinds'][c['kind']] = d['kinds'].get(c['kind'], 0) + 1
         if c['kind'] == 'batch' and isinstance(o, dict):
             d['programs'] += len(c['programs'])
+            d['programs_over_8kB'] += sum(1 for t in c['programs'] if len(t) >= 8192)
             d['rich_programs'] += sum(1 for x in o['rich'] if x)
             d['failing_programs'] += sum(1 for ds in o['digests'] if ds and ds[0].startswith('EXC'))
             d['process_observations'] += len(c['programs']) * o['observations']
@@ -360,5 +380,9 @@ def distribution(cases, obs):
         elif c['kind'] == 'decl' and isinstance(o, dict) and 'declared' in o:
             k = str(min(len(o['declared']), 8))
             d['declared_per_clause'][k] = d['declared_per_clause'].get(k, 0) + 1
+            _, hv, bv = clause_variables(c['clause'])
+            n = len(hv) + len(bv)
+            k = '<50' if n < 50 else '50-100' if n <= 100 else '101-200' if n <= 200 else '>200'
+            d['variable_occurrences_per_clause'][k] = d['variable_occurrences_per_clause'].get(k, 0) + 1
     d['hash_seeds'] = len(seeds)
     return d
